@@ -774,3 +774,29 @@ def frag_cl():
     text += "/-- getNextCounter has the shape `r = ++cur; if(r == 0) { wrapReset; r = ++cur; } return r`; is wrapReset under the list mutex? -/\n"
     text += "def wrapResetLocked : Bool := %s\n\nend Evp.Gen.Cl\n" % ("true" if wrap_locked else "false")
     return True, text, ""
+
+
+@fragment("SpinFrag")
+def frag_spin():
+    """eventpolicies.h SpinLock: lock() is a test-and-set loop on an atomic_flag, unlock() clears it"""
+    src = strip_comments(read_src("include/eventpp/eventpolicies.h"))
+    sm = re.search(r"struct\s+SpinLock\s*\{(.*?)\n\};", src, re.S)
+    if not sm:
+        raise ValueError("struct SpinLock not found")
+    body = sm.group(1)
+    lock = BoolExpr.norm(find_function_body(body, r"void\s+lock\s*\(\s*\)\s*\{"))
+    unlock = BoolExpr.norm(find_function_body(body, r"void\s+unlock\s*\(\s*\)\s*\{"))
+    fm = re.search(r"std::atomic_flag\s+(\w+)", body)
+    if not fm:
+        raise ValueError("SpinLock: no std::atomic_flag member")
+    f = re.escape(fm.group(1))
+    tas = r"%s\.test_and_set\((std::memory_order_acquire|std::memory_order_acq_rel|std::memory_order_seq_cst)?\)" % f
+    lock_ok = bool(re.fullmatch(r"while\(%s\)\{\}" % tas, lock) or re.fullmatch(r"while\(%s\);" % tas, lock)
+                   or re.fullmatch(r"for\(;;\)\{if\(!%s\)\{?(return|break);\}?\}" % tas, lock))
+    unlock_ok = bool(re.fullmatch(r"%s\.clear\((std::memory_order_release|std::memory_order_seq_cst)?\);" % f, unlock))
+    text = GEN_HEADER % "eventpolicies.h SpinLock::lock / unlock"
+    text += "namespace Evp.Gen.Spin\n\n"
+    text += "/-- `lock()` is `while(flag.test_and_set(acquire)) {}` (or the equivalent `for(;;) if(!test_and_set) return;`) on a std::atomic_flag -/\n"
+    text += "def lockIsTasLoop : Bool := %s\n\n" % ("true" if lock_ok else "false")
+    text += "/-- `unlock()` is `flag.clear(release)` -/\ndef unlockIsClear : Bool := %s\n\nend Evp.Gen.Spin\n" % ("true" if unlock_ok else "false")
+    return True, text, ("" if lock_ok and unlock_ok else "SpinLock shape not recognised: lock=%s unlock=%s" % (lock, unlock))
